@@ -665,7 +665,7 @@ class RepeatedlyMeasuredValue(MeasuredValue):
 
         if cov is None and isinstance(other, RepeatedlyMeasuredValue):
             try:
-                cov = utils.calculate_covariance(self.raw_data, other.raw_data)
+                cov = self.__infer_covariance(other)
             except ValueError:
                 cov = None
 
@@ -681,12 +681,21 @@ class RepeatedlyMeasuredValue(MeasuredValue):
 
         if corr is None and isinstance(other, RepeatedlyMeasuredValue):
             try:
-                cov = utils.calculate_covariance(self.raw_data, other.raw_data)
+                cov = self.__infer_covariance(other)
                 corr = cov / (self.std * other.std)
             except ValueError:
                 corr = None
 
         super().set_correlation(other, corr)
+
+    def __infer_covariance(self, other: "RepeatedlyMeasuredValue") -> float:
+        """Calculates the sample covariance from the raw data of the two measurements"""
+        cov = utils.calculate_covariance(self.raw_data, other.raw_data)
+        # A sample covariance cannot exceed the product of the two standard deviations. For
+        # (almost) collinear readings it may do so by a rounding error, which must not make
+        # the implied correlation factor look non-physical.
+        limit = self.std * other.std
+        return max(-limit, min(limit, cov))
 
     def show_histogram(self, **kwargs) -> tuple:  # pragma: no cover
         """Plots the raw measurement data in a histogram
